@@ -245,6 +245,11 @@ func restoreCheck(r *Run) {
 	cfg := r.c.Cfg
 	cfg.NumCompactors = 0
 	cfg.L0Stall = 100000
+	// The restore target gets a 4x larger memtable: KVLoader sizes entries with the
+	// 8-byte timestamp in the key, so an entry that just fitted a transaction of the
+	// source can exceed the batch limit of an identically configured target and Load
+	// fails with ErrTxnTooBig (size arithmetic, C28's subject, observed; DESIGN.md 9.4).
+	cfg.MemTableSize *= 4
 	opt := BadgerOptions(&cfg, dir2, dir2)
 	db2, err := badger.Open(opt)
 	if err != nil {
